@@ -42,6 +42,10 @@ open_("C03", ["C03|obs-mismatch|PrefixScan(*):*|S/*|*", "C03|obs-mismatch|Prefix
       SP + "offset and limit of PrefixScan/PrefixSearchScan are applied per segment and before deleted, expired and superseded records are dropped: pages are short, skip live keys or contain stale entries (the RAM modes were repaired in deeeb5c)")
 open_("C04", ["C04|interference|Get|S/*|*", "C04|interference|RangeScan|S/*|*", "C04|interference|PrefixScan|S/*|*"],
       SP + "the on-disk index is keyed by the plain concatenation bucket+key, so buckets whose name is a prefix of another bucket+key ('' / 'a' / 'ab' with keys 'b','bc') see and shadow each other's keys")
+open_("C04", ["C04|obs-mismatch|*|S/*|*"],
+      SP + "a transaction that writes several buckets records the bucket metadata (key range used by GetAll) for the bucket of its LAST entry only, computed over the keys of all its entries; together with the bucket+key concatenation ambiguity, reads of one bucket depend on writes to another")
+open_("C04", ["C04|obs-mismatch|L*|KV/*|merge*", "C04|obs-mismatch|RPeek:*|KV/*|merge*", "C04|call-result|L*|KV/*|merge*", "C04|call-result|RPop:*|KV/*|merge*"],
+      "Merge does not preserve lists (the defect recorded under C15) - seen here because Merge is in C04's alphabet")
 open_("C06", ["C06|call-result|SRem:err-for-ok|*|ds/set", "C06|obs-mismatch|SCard:wrong-value|KV/*|*", "C06|obs-mismatch|SIsMember:wrong-value|KV/*|*", "C06|obs-mismatch|SMembers:extra|KV/*|*",
               "C06|obs-mismatch|SDiffByOneBucket:extra|KV/*|*", "C06|obs-mismatch|SDiffByTwoBuckets:extra|KV/*|*", "C06|obs-mismatch|SUnionByOneBucket:extra|KV/*|*", "C06|obs-mismatch|SUnionByTwoBuckets:extra|KV/*|*"],
       "the empty member can be added to a set (SAdd) but never removed: Set.SRem rejects an empty first item ('item empty', required by the repository's own TestSet_SRem), so SRem/SPop/SMove of \"\" return success and leave it in the set")
@@ -66,5 +70,6 @@ open_("C15", ["C15|merge-changed-reads-after-reopen|SHasKey:*|KV/*|*"],
 open_("C16", ["C16|recovered-state|L*|KV/*|*", "C16|recovered-state|RPeek:*|KV/*|*", "C16|recovered-state|SHasKey:*|KV/*|*"],
       "a crash during (or a clean reopen after) Merge shows the list/emptied-set defects of Merge recorded under C15: pushes rewritten without the LSet/pop records, duplicates when both the old and the rewritten segment survive")
 fixed("C15", "8f7687e", "Merge removed the active file when none of its entries had to be rewritten (e.g. it only held a tombstone): later commits went to an unlinked file and were lost", "C15|obs-mismatch|Get:nil|K/F|merge")
+fixed("C02", "084af14", "sparse mode: RangeScan/GetAll skipped a sealed segment whose key range strictly contains the scanned range", "C02|obs-mismatch|RangeScan:missing|S/F|rot")
 json.dump({"findings": F}, open(os.path.join(root, "known_findings.json"), "w"), indent=1)
 print(len(F), "entries")
